@@ -13,7 +13,7 @@ use serde_json::{json, Value};
 use std::path::Path;
 use std::time::Duration;
 
-pub const DECORATIONS: [&str; 11] = ["/*é*/", "// ü\n", "/***/", "/* 漢字 */ ", "\r\n", " \t ", "×", "≠ ", " 😀", "#", "é"];
+pub const DECORATIONS: [&str; 12] = ["/*é*/", "// ü\n", "/***/", "/* 漢字 */ ", "\r\n", " \t ", "×", "≠ ", " 😀", "#", "é", "\u{feff}"];
 
 fn is_identifier_list(t: &str) -> bool {
     !t.is_empty()
@@ -80,6 +80,16 @@ pub fn check_findings(name: &str, text: &str, findings: &[Finding], invalid: &[S
                     observed: format!("bytes {}..{}\n{text}", l.start, l.end),
                 });
                 continue;
+            }
+            // Findings about a parameter point at the parameter list.
+            if f.message.starts_with("The parameter `") && !is_identifier_list(&t) {
+                out.push(Violation {
+                    signature: format!("parameter-finding-not-at-parameter-list/{}", f.id),
+                    what: format!("corpus {name}: `{}` is labelled at `{}`, which is not a parameter list", f.short(), crate::infra::truncate(&t, 80)),
+                    case: case.clone(),
+                    expected: "the parameter list of the definition under the primary label".into(),
+                    observed: format!("bytes {}..{}\n{text}", l.start, l.end),
+                });
             }
             // The first identifier the label message quotes must occur in the labelled text.
             if let Some(quoted) = l.message.split('`').nth(1) {
@@ -406,9 +416,9 @@ pub fn variant_text(text: &str, gap: usize, deco: usize) -> Option<String> {
 
 pub fn run(run: &Run) {
     run.set_rule(
-        "8 corpus files (every pass family, lifting warnings and errors, parse error, illegal sugar) x 11 \
+        "10 corpus files (every pass family, lifting warnings and errors, parse error, illegal sugar, re-assigned and unused parameters) x 12 \
          decorations {/*e-acute*/, // u-umlaut + newline, /***/, /* CJK */, CRLF, blank-tab-blank, and invalid \
-         characters of 1-4 bytes in code: x-times, not-equal, emoji, #, e-acute} inserted at \
+         characters of 1-4 bytes in code: x-times, not-equal, emoji, #, e-acute, byte order mark} inserted at \
          every token gap (every 2nd in quick), plus: all line ends CRLF, a decoration in every gap at \
          once, a multi-byte character inside a log string; every label checked for validity and for \
          covering a complete construct; binary line:col and SARIF regions recomputed from the original \
